@@ -85,6 +85,33 @@ PROGFUZZ = {
         assumptions=["rustc compiles the generated crate faithfully", "the reference evaluator (engine/core/src/eval.rs) is correct; it is validated by the setup self-test",
                      "value domains are small finite sets; arity <= 4; <= 8 rules per program"],
     ),
+    "C03": dict(
+        quick=dict(programs=120, cases=25), thorough=dict(programs=1500, cases=100),
+        level="exploration",
+        rule=("Programs: 1-2 lattice relations (0-2 key columns) over i32/u32 (max), bool, Dual<u32>, Option<u32>, Set<u8>, "
+              "BoundedSet<3,u8>, ConstPropagation<u8>, (u32,u32), Product<(u32,Dual<u32>)> (through a Hash-adding newtype); "
+              "base rules, linear / non-linear recursion through the lattice with monotone steps (capped add, max, min with "
+              "constant, union, identity), cross-lattice rules, upward-closed threshold rules into plain relations with "
+              "monotone feedback, arbitrary reads only in later strata. Inputs: weighted graphs over small domains. "
+              "Oracle: reference least fixed point (own joins): exactly one row per derivable key with the reference value; "
+              "derived plain relations equal as sets. Non-trivial: some key strictly increased >= 2 times (3 values) and "
+              "improvements happened in >= 2 different rounds; distinct (program text, input) pairs."),
+        assumptions=["rustc compiles the generated crate faithfully", "reference evaluator and its lattice joins (engine/core/src/val.rs) are correct",
+                     "only shipped lattice types; rule templates are monotone by construction"],
+    ),
+    "C04": dict(
+        quick=dict(programs=120, cases=25), thorough=dict(programs=1500, cases=100),
+        level="exploration",
+        rule=("Programs: a positive (usually recursive) or lattice bottom plus 1-3 upper strata whose rules aggregate or negate "
+              "relations of strictly lower strata (stratifiable by construction); aggregators count, sum, min, max, mean, "
+              "percentile(p<100), explicit not(), !r(..), and two user aggregators (top2: returns up to two values; collect_len: "
+              "multiplicity sensitive); every argument of the aggregated clause is bound / wildcard / constant / expression / "
+              "aggregated at random; aggregation over lattices included. Oracle: reference stratified model. Non-trivial: an "
+              "aggregate group with >= 2 tuples was evaluated, or a negation was true for some bindings and false for others, "
+              "and >= 1 tuple was derived; distinct (program text, input) pairs."),
+        assumptions=["rustc compiles the generated crate faithfully", "reference evaluator and its own aggregator definitions are correct",
+                     "mean is only used on small integers (sums exact in f64) and cast to i32"],
+    ),
 }
 
 
@@ -95,17 +122,17 @@ def progfuzz(prop, tier, seed, replay=None):
     out = os.path.join(WORK, prop)
     os.makedirs(out, exist_ok=True)
     vgen = build_engine_bin("vgen")
-    gen_seed = seed
-    only = None
     replay_data = None
     if replay:
         replay_data = json.load(open(replay))
-        gen_seed = replay_data["seed"]
-        tier_gen = replay_data.get("tier", tier)
+        out = os.path.join(WORK, "replay-" + prop)
+        os.makedirs(out, exist_ok=True)
+        sh([vgen, "--prop", prop, "--tier", tier, "--seed", str(seed), "--out", out, "--engine", ENGINE,
+            "--from-replay", os.path.abspath(replay)])
     else:
-        tier_gen = tier
-    sh([vgen, "--prop", prop, "--tier", tier_gen, "--seed", str(gen_seed), "--out", out, "--engine", ENGINE]
-       + (["--programs", str(tcfg["programs"])] if "programs" in tcfg and not replay else []))
+        sh([vgen, "--prop", prop, "--tier", tier, "--seed", str(seed), "--out", out, "--engine", ENGINE,
+            "--findings", VERIF]
+           + (["--programs", str(tcfg["programs"])] if "programs" in tcfg else []))
     ws = os.path.join(out, "ws")
     plan = json.load(open(os.path.join(out, "plan.json")))
     render_engine()
@@ -115,11 +142,9 @@ def progfuzz(prop, tier, seed, replay=None):
     lock_src = os.path.join(ENGINE, "Cargo.lock")
     if not os.path.exists(os.path.join(ws, "Cargo.lock")):
         shutil.copy(lock_src, os.path.join(ws, "Cargo.lock"))
-    exe = os.path.join(TARGET, "debug", "runall")
+    exe = os.path.join(TARGET, "debug", plan["runner"])
     if replay:
         base = replay_data["base"]
-        if not any(e["base"] == base for e in plan["index"]):
-            raise Inconclusive("replay: base %s not produced by the generator at seed %s" % (base, gen_seed))
         sh(["cargo", "build", "-q"], cwd=ws)
         res_path = os.path.join(out, "replay_result.json")
         pr = sh([exe, "--prop", prop, "--tier", tier, "--seed", str(seed),
@@ -162,6 +187,7 @@ def merge_progfuzz(prop, tier, seed, run):
             cov["samples"].extend(r["samples"][: 4 - len(cov["samples"])])
         violations.extend(r["violations"])
         infra.extend(r["infra_errors"])
+        cov.setdefault("known_replays", []).extend(r.get("known", []))
     return cov, violations, infra
 
 
@@ -194,21 +220,36 @@ def run_known_replays(prop, tier, seed, known, runner):
 
 
 def finish(prop, tier, seed, level, cov, assumptions, wall, violations, infra):
-    known = load_known()
+    known = [k for k in load_known() if k.get("property") == prop and k.get("status") == "known"]
     new = []
     known_hits = {}
-    for v in violations:
-        k = match_known(prop, v, known)
-        if k is not None:
-            known_hits.setdefault(k["id"], 0)
-            known_hits[k["id"]] += 1
-        else:
-            new.append(v)
-    cov["known_finding_hits"] = known_hits
-    write_evidence(prop, tier, seed, level, cov, assumptions, wall, len(new))
+    # the trigger shapes of open findings are excluded by construction, so nothing the search reports is
+    # attributed to a known finding: every failing generated case is a violation
+    new.extend(violations)
+    lines = []
+    replays = {o["id"]: o for o in cov.pop("known_replays", [])}
+    status = {}
     for k in known:
-        if k.get("property") == prop and k.get("status") == "known":
-            print("KNOWN-FINDING: property=%s %s" % (prop, k["what"]))
+        o = replays.get(k["id"])
+        if o is None:
+            if k.get("replay"):
+                infra.append("known finding %s: committed replay was not executed" % k["id"])
+            continue
+        if o["failed"] and (o.get("signature") or "") == k.get("signature"):
+            lines.append("KNOWN-FINDING: property=%s %s: %s" % (prop, k["id"], k["what"]))
+            status[k["id"]] = "still fails (signature %s)" % o.get("signature")
+        elif o["failed"]:
+            v = dict(property=prop, base=k["id"], signature=o.get("signature"), failures=o.get("failures"),
+                     program_text="(committed replay of %s fails with a different signature)" % k["id"], input_text="")
+            new.append(v)
+            status[k["id"]] = "fails differently: %s" % o.get("signature")
+        else:
+            status[k["id"]] = "committed replay passes on this tree"
+    cov["known_finding_hits"] = known_hits
+    cov["known_finding_replays"] = status
+    write_evidence(prop, tier, seed, level, cov, assumptions, wall, len(new))
+    for l in lines:
+        print(l)
     if infra:
         for i in infra[:5]:
             sys.stderr.write("infrastructure error: %s\n" % i[:2000])
